@@ -7,6 +7,7 @@ import os
 import random
 import shutil
 import sqlite3
+from urllib.parse import quote as _urlquote
 
 from . import seams
 from .node import Node, NodeDied, HarnessError
@@ -30,6 +31,9 @@ def run_seed(verif_seed, check_id, i):
 
 def rng_for(verif_seed, check_id, i):
     return random.Random(run_seed(verif_seed, check_id, i))
+
+
+from .env import ENV, set_env, decorate  # noqa: E402,F401  (per-run environment knobs, DESIGN 2.6b)
 
 
 def canon(obj):
@@ -56,7 +60,11 @@ class World(object):
         self.stats = {"nodes": 0, "crashes": 0, "points": 0, "ops": 0, "kinds": {}, "fired": {}}
 
     def p(self, name):
-        return os.path.join(self.path, name)
+        d = decorate(name)
+        if d != name:
+            eu = self.stats.setdefault("env_used", {})
+            eu["dbname"] = eu.get("dbname", 0) + 1
+        return os.path.join(self.path, d)
 
     def node(self, **kw):
         n = Node(self.path + "/", len(self.nodes), **kw)
@@ -79,6 +87,9 @@ class World(object):
         self.stats["points"] += r.get("points", 0)
         for k, v in (r.get("kinds") or {}).items():
             self.stats["kinds"][k] = self.stats["kinds"].get(k, 0) + v
+        for k, v in (r.get("env_used") or {}).items():
+            eu = self.stats.setdefault("env_used", {})
+            eu[k] = eu.get(k, 0) + v
         for f in r.get("fired") or []:
             k = f["mode"] + "@" + f["kind"]
             self.stats["fired"][k] = self.stats["fired"].get(k, 0) + 1
@@ -112,7 +123,7 @@ TABLES = ("features", "relations", "directives", "meta", "autoincrements", "dupl
 
 def raw_dump(path, tables=TABLES):
     """Observer: plain read-only sqlite connection, never shared with a node."""
-    conn = seams._real_connect("file:%s?mode=ro" % path, uri=True, timeout=0)
+    conn = seams._real_connect("file:%s?mode=ro" % _urlquote(path), uri=True, timeout=0)
     try:
         conn.execute("SELECT name FROM sqlite_master LIMIT 1").fetchall()
     except sqlite3.OperationalError:
